@@ -60,8 +60,9 @@ type Lowerer struct {
 	currentFunc    *ir.Function
 	currentFuncIdx ir.FunctionHandle
 	currentExprIdx ir.ExpressionHandle
-	isInsideLoop   bool // true when lowering statements inside a loop body
-	isStatement    bool // true when lowering an expression as a statement (ExprStmt)
+	isInsideLoop   bool        // true when lowering statements inside a loop body
+	isStatement    bool        // true when lowering an expression as a statement (ExprStmt)
+	stmtExpr       parser.Expr // the expression of the ExprStmt being lowered; its operands are in value position
 
 	// nonConstExprs tracks expression handles that are forced non-const.
 	// WGSL spec: "let" binding initializers are not const expressions.
@@ -3985,8 +3986,10 @@ func (l *Lowerer) lowerStatement(stmt parser.Stmt, target *[]ir.Statement) error
 		// Evaluate expression for side effects.
 		// Set isStatement flag so atomic calls know their result is discarded.
 		l.isStatement = true
+		l.stmtExpr = s.Expr
 		emitStart := l.emitStartWithTarget(target)
 		_, err := l.lowerExpression(s.Expr, target)
+		l.stmtExpr = nil
 		if err != nil {
 			l.isStatement = false
 			return err
@@ -5229,6 +5232,12 @@ func (l *Lowerer) lowerLocalConst(decl *parser.ConstDecl, target *[]ir.Statement
 
 // lowerExpression converts an expression to IR.
 func (l *Lowerer) lowerExpression(expr parser.Expr, target *[]ir.Statement) (ir.ExpressionHandle, error) {
+	// Only the expression of an ExprStmt itself has its value discarded;
+	// its operands (e.g. the arguments of the call) are in value position.
+	if l.isStatement && expr != l.stmtExpr {
+		l.isStatement = false
+		defer func() { l.isStatement = true }()
+	}
 	switch e := expr.(type) {
 	case *parser.Literal:
 		return l.lowerLiteral(e)
@@ -7535,7 +7544,7 @@ func (l *Lowerer) lowerCall(call *parser.CallExpr, target *[]ir.Statement) (ir.E
 		*target = append(*target, ir.Statement{
 			Kind: ir.StmtBarrier{Flags: barrierFlags},
 		})
-		return 0, nil // Barriers don't return a value
+		return l.voidCall(funcName) // Barriers don't return a value
 	}
 
 	// Check if this is a type constructor (struct, vector, matrix, scalar, or type alias).
@@ -7599,6 +7608,11 @@ func (l *Lowerer) lowerCall(call *parser.CallExpr, target *[]ir.Statement) (ir.E
 	if int(funcHandle) < len(l.module.Functions) {
 		hasResult = l.module.Functions[funcHandle].Result != nil
 	}
+	if !hasResult {
+		if _, err := l.voidCall(funcName); err != nil {
+			return 0, err
+		}
+	}
 
 	// Flush pending emit range before the StmtCall.
 	// Rust naga emits argument sub-expressions BEFORE the call statement,
@@ -7639,6 +7653,15 @@ func (l *Lowerer) lowerCall(call *parser.CallExpr, target *[]ir.Statement) (ir.E
 	l.currentEmitTarget = target
 
 	return resultHandle, nil
+}
+
+// voidCall is the result of lowering a call to a function that returns no
+// value: valid only as a statement, never as an operand.
+func (l *Lowerer) voidCall(funcName string) (ir.ExpressionHandle, error) {
+	if !l.isStatement {
+		return 0, fmt.Errorf("function '%s' does not return a value", funcName)
+	}
+	return 0, nil
 }
 
 // lowerConstruct converts a type constructor to IR.
@@ -14761,6 +14784,9 @@ func (l *Lowerer) lowerTextureStore(args []parser.Expr, target *[]ir.Statement) 
 	if len(args) < 3 {
 		return 0, fmt.Errorf("textureStore requires at least 3 arguments")
 	}
+	if _, err := l.voidCall("textureStore"); err != nil {
+		return 0, err
+	}
 
 	image, err := l.lowerExpression(args[0], target)
 	if err != nil {
@@ -14890,7 +14916,7 @@ func (l *Lowerer) lowerTextureAtomic(name string, args []parser.Expr, target *[]
 	})
 
 	// textureAtomic* functions return nothing in WGSL
-	return 0, nil
+	return l.voidCall(name)
 }
 
 // lowerTextureQuery converts a texture query call to IR.
@@ -15086,7 +15112,7 @@ func (l *Lowerer) lowerAtomicStore(args []parser.Expr, target *[]ir.Statement) (
 		},
 	})
 
-	return 0, nil // No return value
+	return l.voidCall("atomicStore") // No return value
 }
 
 // lowerAtomicLoad converts atomicLoad(&ptr) to IR.
@@ -15719,7 +15745,7 @@ func (l *Lowerer) lowerRayQueryCall(name string, args []parser.Expr, target *[]i
 			newStart := l.currentExprIdx
 			l.emitStateStart = &newStart
 		}
-		return 0, nil
+		return l.voidCall(name)
 
 	case "rayQueryProceed":
 		// rayQueryProceed(&rq) -> bool
@@ -15793,7 +15819,7 @@ func (l *Lowerer) lowerRayQueryCall(name string, args []parser.Expr, target *[]i
 				Fun:   ir.RayQueryGenerateIntersection{HitT: hitT},
 			},
 		})
-		return 0, nil
+		return l.voidCall(name)
 
 	case "rayQueryConfirmIntersection":
 		// rayQueryConfirmIntersection(&rq)
@@ -15810,7 +15836,7 @@ func (l *Lowerer) lowerRayQueryCall(name string, args []parser.Expr, target *[]i
 				Fun:   ir.RayQueryConfirmIntersection{},
 			},
 		})
-		return 0, nil
+		return l.voidCall(name)
 
 	case "rayQueryTerminate":
 		// rayQueryTerminate(&rq)
@@ -15827,7 +15853,7 @@ func (l *Lowerer) lowerRayQueryCall(name string, args []parser.Expr, target *[]i
 				Fun:   ir.RayQueryTerminate{},
 			},
 		})
-		return 0, nil
+		return l.voidCall(name)
 
 	default:
 		return 0, fmt.Errorf("unknown ray query function: %s", name)
